@@ -128,16 +128,15 @@ def Except.isOk {ε α : Type} : Except ε α → Bool
   | .ok _ => true
   | .error _ => false
 
-/-- **mpk_once_in_phase (proved part)**: a contribution is accepted only in the Contribute phase, only from a member of
-the DKG miners list, only with exactly `T` entries, and only if no MPK is stored under its key; it stores the key, and
-from then on no contribution under that key is accepted while the list is kept. The key is the payload's `ID` field when
-the payload has one, else the sender. -/
-theorem mpk_once_in_phase_partial (s : State) (sender size : Nat) (pid : Option Nat) (s' : State)
+/-- **mpk_once_in_phase** (full statement; the "per participating miner" part holds since commit 156160f): a contribution
+is accepted only in the Contribute phase, only from a member of the DKG miners list, only with exactly `T` entries, and
+only if that miner has no MPK stored yet; it is recorded under the sender's id whatever id the payload names, and from
+then on no contribution of that sender — under any payload id — is accepted while the list is kept. -/
+theorem mpk_once_in_phase (s : State) (sender size : Nat) (pid : Option Nat) (s' : State)
     (h : contributeMpk s sender size pid = .ok s') :
     (getPhaseNode s).phase = pContribute ∧ sender ∈ ids s.dkg.nodes ∧ (size : Int) = s.dkg.t ∧
-    pid.getD sender ∉ s.mpks.getD [] ∧ s'.mpks = some (s.mpks.getD [] ++ [pid.getD sender]) ∧
-    (∀ sender2 size2 pid2, pid2.getD sender2 = pid.getD sender →
-      Except.isOk (contributeMpk s' sender2 size2 pid2) = false) := by
+    sender ∉ s.mpks.getD [] ∧ s'.mpks = some (s.mpks.getD [] ++ [sender]) ∧
+    (∀ size2 pid2, Except.isOk (contributeMpk s' sender size2 pid2) = false) := by
   unfold contributeMpk at h
   split at h; · simp at h
   rename_i hph
@@ -151,22 +150,46 @@ theorem mpk_once_in_phase_partial (s : State) (sender size : Nat) (pid : Option 
   injection h with h
   subst h
   refine ⟨by simpa using hph, by simpa using hmem, by simpa using hsz, by simpa using hdup, rfl, ?_⟩
-  intro sender2 size2 pid2 hk
+  intro size2 pid2
   unfold contributeMpk
-  simp only [Option.getD_some, hk]
-  split; · rfl
-  split; · rfl
-  split; · rfl
-  simp [Except.isOk]
+  simp only [Option.getD_some]
+  have hc : (s.mpks.getD [] ++ [sender]).contains sender = true := by simp
+  repeat' split
+  all_goals first | rfl | (rename_i hn; exact absurd hc hn)
 
-/-- **sos_once_in_phase (proved part)**: shares are accepted only in the Publish phase, only once per sender, only with
-at least `K-1` entries, only if they validate (and the MPK node exists); afterwards nothing more is accepted from that
-sender in the phase. -/
-theorem sos_once_in_phase_partial (s : State) (sender count : Nat) (valid : Bool) (owner : Nat) (s' : State)
-    (h : shareSignsOrShares s sender count valid owner = .ok s') :
-    (getPhaseNode s).phase = pPublish ∧ sender ∉ s.gsos.getD [] ∧ s.dkg.k - 1 ≤ (count : Int) ∧ valid = true ∧
+/-- the MPK list only ever grows by the sender of an accepted contribution: every stored key is a DKG member that
+contributed itself (no key can be planted for another miner or for a stranger). -/
+theorem mpk_keys_are_contributing_members (s : State) (sender size : Nat) (pid : Option Nat) (s' : State)
+    (h : contributeMpk s sender size pid = .ok s')
+    (hinv : ∀ k ∈ s.mpks.getD [], k ∈ ids s.dkg.nodes) :
+    ∀ k ∈ s'.mpks.getD [], k ∈ ids s'.dkg.nodes := by
+  obtain ⟨_, hmem, _, _, hm, _⟩ := mpk_once_in_phase s sender size pid s' h
+  have hd : s'.dkg = s.dkg := by
+    unfold contributeMpk at h
+    split at h; · simp at h
+    split at h; · simp at h
+    split at h; · simp at h
+    simp only at h
+    split at h; · simp at h
+    injection h with h; subst h; rfl
+  intro k hk
+  rw [hm] at hk
+  simp only [Option.getD_some, List.mem_append, List.mem_singleton] at hk
+  rw [hd]
+  rcases hk with hk | hk
+  · exact hinv k hk
+  · rw [hk]; exact hmem
+
+/-- **sos_once_in_phase** (full statement; membership and the sender's own key since commit 2f3cfcd): shares are accepted
+only in the Publish phase, only from a member of the DKG miners list, only once per member, only with at least `K-1`
+entries that validate against the MPK stored under the sender's id (which must exist when there is an entry); they are
+recorded under the sender's id, and nothing more is accepted from that sender in the phase. -/
+theorem sos_once_in_phase (s : State) (sender count : Nat) (valid : Bool) (s' : State)
+    (h : shareSignsOrShares s sender count valid = .ok s') :
+    (getPhaseNode s).phase = pPublish ∧ sender ∈ ids s.dkg.nodes ∧ sender ∉ s.gsos.getD [] ∧
+    s.dkg.k - 1 ≤ (count : Int) ∧ valid = true ∧ (1 ≤ count → sender ∈ s.mpks.getD []) ∧
     s'.gsos = some (s.gsos.getD [] ++ [sender]) ∧
-    (∀ count2 valid2 owner2, ∀ s2, shareSignsOrShares s' sender count2 valid2 owner2 ≠ .ok s2) := by
+    (∀ count2 valid2, Except.isOk (shareSignsOrShares s' sender count2 valid2) = false) := by
   unfold shareSignsOrShares at h
   split at h; · simp at h
   rename_i hph
@@ -174,40 +197,53 @@ theorem sos_once_in_phase_partial (s : State) (sender count : Nat) (valid : Bool
   split at h; · simp at h
   rename_i hdup
   split at h; · simp at h
+  rename_i hmem
+  split at h; · simp at h
   rename_i hfew
   split at h
   · simp at h
   · rename_i mpks hm
     split at h; · simp at h
+    rename_i hown
     split at h; · simp at h
     rename_i hv
     injection h with h
     subst h
-    refine ⟨by simpa using hph, by simpa using hdup, by omega, by simpa using hv, rfl, ?_⟩
-    intro count2 valid2 owner2 s2
-    unfold shareSignsOrShares
-    simp only [Option.getD_some]
-    split; · simp
-    have : (s.gsos.getD [] ++ [sender]).contains sender = true := by simp
-    simp [this]
+    refine ⟨by simpa using hph, by simpa using hmem, by simpa using hdup, by omega, by simpa using hv, ?_, rfl, ?_⟩
+    · intro hc
+      rw [hm]
+      simp only [Option.getD_some]
+      by_cases hin : mpks.contains sender = true
+      · simpa using hin
+      · exact absurd ⟨hc, by simpa using hin⟩ hown
+    · intro count2 valid2
+      unfold shareSignsOrShares
+      simp only [Option.getD_some]
+      split; · rfl
+      have : (s.gsos.getD [] ++ [sender]).contains sender = true := by simp
+      simp [this, Except.isOk]
 
-/-- **wait_once_in_phase (proved part)**: a wait confirmation is accepted only in the Wait phase and once per sender. -/
-theorem wait_once_in_phase_partial (s : State) (sender : Nat) (s' : State) (h : wait s sender = .ok s') :
-    (getPhaseNode s).phase = pWait ∧ sender ∉ s.dkg.waited ∧ s'.dkg.waited = s.dkg.waited ++ [sender] ∧
-    Except.isOk (wait s' sender) = false := by
+/-- **wait_once_in_phase** (full statement; membership since commit 0a444b0): a wait confirmation is accepted only in the
+Wait phase, only from a member of the DKG miners list, and once per member. -/
+theorem wait_once_in_phase (s : State) (sender : Nat) (s' : State) (h : wait s sender = .ok s') :
+    (getPhaseNode s).phase = pWait ∧ sender ∈ ids s.dkg.nodes ∧ sender ∉ s.dkg.waited ∧
+    s'.dkg.waited = s.dkg.waited ++ [sender] ∧ Except.isOk (wait s' sender) = false := by
   unfold wait at h
   split at h; · simp at h
   rename_i hph
   split at h; · simp at h
+  rename_i hmem
+  split at h; · simp at h
   rename_i hdup
   injection h with h
   subst h
-  refine ⟨by simpa using hph, by simpa using hdup, rfl, ?_⟩
+  refine ⟨by simpa using hph, by simpa using hmem, by simpa using hdup, rfl, ?_⟩
   unfold wait
-  split; · rfl
-  simp [Except.isOk]
+  have hc : (s.dkg.waited ++ [sender]).contains sender = true := by simp
+  repeat' split
+  all_goals first | rfl | (rename_i hn; exact absurd hc hn)
 
-/-! ### negation witnesses: "once per participating miner" -/
+/-! ### the former negation witnesses ("once per participating miner"), now refused -/
 
 /-- a state in the Contribute phase: DKG miners 0..3, T = 3, K = 3, no MPK yet. -/
 def sContribute : State :=
@@ -219,48 +255,49 @@ def sContribute : State :=
     lfmb := ⟨1, 0, 1, 1, 4, ⟨[0, 1, 2, 3], [0, 1, 2, 3]⟩, ⟨[100, 101], [100, 101]⟩⟩,
     perms := [[], [0], [1, 0], [2, 0, 1], [3, 2, 1, 0]] }
 
+def errOf (r : Except Err State) : Option Err :=
+  match r with
+  | .ok _ => none
+  | .error e => some e
+
 def mpksOf (r : Except Err State) : List Nat :=
   match r with
   | .ok s => s.mpks.getD []
   | .error _ => []
 
-/-- FULL statement `mpk_once_in_phase` ("once per participating miner") is false of the code: miner 3 contributes three
-times in one phase — under the id of miner 1, under the id 201 of a client that is no miner at all, and under its own. -/
-theorem mpk_once_per_miner_false :
-    mpksOf (do
-      let s1 ← contributeMpk sContribute 3 3 (some 1)
-      let s2 ← contributeMpk s1 3 3 (some 201)
-      contributeMpk s2 3 3 none) = [1, 201, 3] := by decide
+/-- miner 3 names miner 1 in its payload: the key is recorded under 3, and its next contributions (naming the
+stranger 201, or nobody) are refused as duplicates (before commit 156160f all three were accepted: keys 1, 201, 3). -/
+theorem mpk_payload_id_ignored :
+    mpksOf (contributeMpk sContribute 3 3 (some 1)) = [3] ∧
+    errOf (do let s1 ← contributeMpk sContribute 3 3 (some 1); contributeMpk s1 3 3 (some 201)) = some .dup ∧
+    errOf (do let s1 ← contributeMpk sContribute 3 3 (some 1); contributeMpk s1 3 3 none) = some .dup := by decide
 
 def sPublish : State :=
-  { sContribute with pn := some ⟨pPublish, 8, 8, 0⟩, round := 9, mpks := some [0, 1, 2, 3] }
+  { sContribute with pn := some ⟨pPublish, 8, 8, 0⟩, round := 9, mpks := some [0, 1, 2] }
 
-def gsosOf (r : SosRes) : List Nat :=
+def gsosOf (r : Except Err State) : List Nat :=
   match r with
   | .ok s => s.gsos.getD []
-  | _ => []
+  | .error _ => []
 
-/-- FULL statement `sos_once_in_phase` (… per participating miner) is false: client 200, which is not in the DKG miners
-list, is accepted with (replayed) shares that validate against miner 0's MPK. -/
-theorem sos_from_non_member_false :
-    200 ∉ ids sPublish.dkg.nodes ∧ gsosOf (shareSignsOrShares sPublish 200 3 true 0) = [200] := by decide
+/-- client 200 is not in the DKG miners list: its shares are refused (before commit 2f3cfcd a replay of miner 0's
+shares was accepted and stored under 200). -/
+theorem sos_from_non_member_refused :
+    200 ∉ ids sPublish.dkg.nodes ∧ errOf (shareSignsOrShares sPublish 200 3 true) = some .notMember := by decide
 
-/-- shares under an id that has no MPK: `Validate` dereferences nil (the model's `crash`). -/
-theorem sos_unknown_mpk_crashes :
-    (match shareSignsOrShares sPublish 200 3 true 200 with | .crash => true | _ => false) = true := by decide
+/-- miner 3 is a DKG member without an MPK: share entries cannot validate and are refused (before commit 2f3cfcd a
+payload id without MPK was a nil dereference in `Validate` that ended the process); without entries there is nothing
+to validate. -/
+theorem sos_without_mpk_refused :
+    errOf (shareSignsOrShares sPublish 3 3 true) = some .invalid ∧
+    gsosOf (shareSignsOrShares { sPublish with dkg := { sPublish.dkg with k := 1 } } 3 0 true) = [3] := by decide
 
 def sWait : State := { sContribute with pn := some ⟨pWait, 11, 11, 0⟩, round := 12 }
 
-def waitedOf (r : Except Err State) : List Nat :=
-  match r with
-  | .ok s => s.dkg.waited
-  | .error _ => []
-
-/-- FULL statement `wait_once_in_phase` ("once per participating miner") is false: `wait` does not look at the DKG miners
-list; client 200 and the unregistered miner 7 are accepted. -/
-theorem wait_from_non_member_false :
-    200 ∉ ids sWait.dkg.nodes ∧ 7 ∉ ids sWait.dkg.nodes ∧
-    waitedOf (do let s1 ← wait sWait 200; wait s1 7) = [200, 7] := by decide
+/-- `wait` from client 200 and from the unregistered miner 7 is refused (accepted before commit 0a444b0). -/
+theorem wait_from_non_member_refused :
+    errOf (wait sWait 200) = some .notMember ∧ errOf (wait sWait 7) = some .notMember ∧
+    errOf (do let s1 ← wait sWait 1; wait s1 1) = some .dup := by decide
 
 /-! ## the produced magic block -/
 
@@ -455,7 +492,7 @@ example : ((setPhaseNode { sPublishDone with gsos := some [0] } (getPhaseNode sP
 -- the acceptance theorems' hypotheses are met
 example : Except.isOk (contributeMpk sContribute 2 3 none) = true := by decide
 example : Except.isOk (wait sWait 1) = true := by decide
-example : gsosOf (shareSignsOrShares sPublish 1 3 true 1) = [1] := by decide
+example : gsosOf (shareSignsOrShares sPublish 1 3 true) = [1] := by decide
 
 /-! ### after a view change: the next DKG can start
 
